@@ -49,3 +49,11 @@ PROPS["C04"] = {
     ],
     "assumptions": [],
 }
+
+PROPS["C03"] = {
+    "level": "proof",
+    "contracts": [
+        ("contracts.decoder", "xdis.bytecode:get_logical_instruction_at_offset"),
+    ],
+    "assumptions": [],
+}
